@@ -4,8 +4,12 @@
   seed.py confirm <PROP> <i> [name]   confirm /tmp/wt_out/<PROP>/patch_<i>.diff in the scratch worktree /tmp/wt/<PROP>
                                        (suite passes with it, demo fails with it and passes without) and store it as
                                        /verif/seeded/<PROP>_<name or i>/{patch.diff, demo.py, meta.json}
-  seed.py run <seed_id> [C..]          apply the patch to /repo, run the quick checks (default: the seed's property), undo, and
+  seed.py run <seed_id> [C..]          apply the patch to a scratch worktree of /repo (/tmp/repo_seed; the checks read it through
+                                       VERIF_REPO), run the quick checks (default: the seed's property), remove the worktree, and
                                        record which checks reported a violation in seeded/<seed_id>/detect.json
+
+/repo itself is never modified: an earlier version patched /repo in place and undid the patch afterwards; when a session was cut off
+in between, seed C15_9 stayed applied and was committed with the tree (DESIGN.md I.7).
 """
 import json
 import os
@@ -59,23 +63,18 @@ SCRATCH = "/tmp/repo_seed"
 
 
 def run(sid, checks):
-    """With SEED_SCRATCH=1 the patch is applied to a scratch worktree of /repo (checks run with VERIF_REPO pointing at it):
-    used while a long sweep is reading /repo itself."""
+    """The patch is applied to a scratch worktree of /repo (checks run with VERIF_REPO pointing at it); /repo is never touched."""
     d = f"{VERIF}/seeded/{sid}"
     meta = json.load(open(f"{d}/meta.json"))
     checks = checks or [meta["property"]]
-    scratch = os.environ.get("SEED_SCRATCH") == "1"
-    target, env = "/repo", {}
-    if scratch:
-        sh(f"git worktree remove --force {SCRATCH}", cwd="/repo")
-        rc, o = sh(f"git worktree add --detach {SCRATCH} HEAD", cwd="/repo")
-        assert rc == 0, o
-        target, env = SCRATCH, {"VERIF_REPO": SCRATCH}
-    assert sh("git status --porcelain", cwd=target)[1].strip() == "", f"{target} is dirty"
-    rc, o = sh(f"git apply {d}/patch.diff", cwd=target)
+    sh(f"git worktree remove --force {SCRATCH}", cwd="/repo")
+    rc, o = sh(f"git worktree add --detach {SCRATCH} HEAD", cwd="/repo")
     assert rc == 0, o
+    target, env = SCRATCH, {"VERIF_REPO": SCRATCH}
     res = {}
     try:
+        rc, o = sh(f"git apply {d}/patch.diff || git apply -3 {d}/patch.diff", cwd=target)
+        assert rc == 0, o
         for c in checks:
             t = time.time()
             rc, o = sh(f"./check {c} --tier quick", cwd=VERIF, timeout=3600, env=env)
@@ -84,10 +83,8 @@ def run(sid, checks):
             res[c] = {"exit": rc, "violations_reported": len(viol), "first": first.strip()[:300], "wall_s": round(time.time() - t, 1)}
             print(f"  {sid} vs {c}: exit={rc} VIOLATION lines={len(viol)} {first.strip()[:160]}")
     finally:
-        if scratch:
-            sh(f"git worktree remove --force {SCRATCH}", cwd="/repo")
-        else:
-            sh("git checkout -- .", cwd="/repo")
+        sh(f"git worktree remove --force {SCRATCH}", cwd="/repo")
+        sh("git worktree prune", cwd="/repo")
     # evidence files were rewritten by the mutant run: restore the committed ones
     sh("git checkout -- evidence", cwd=VERIF)
     prev = {}
@@ -100,7 +97,7 @@ def run(sid, checks):
 
 HEADER = """# Seeded changes
 
-Each directory holds `patch.diff` (apply with `git -C /repo apply`), `demo.py` (exits non-zero with the change, 0 without; set `PEST_SRC=/repo/src`, `PEST_ROOT=/repo`), `meta.json` (what it breaks, what it needs to manifest, how it was confirmed) and `detect.json` (quick checks run against it with `tools/seed.py run`). All were written by independent sub-agents given only the property text and a scratch worktree, and confirmed in a scratch worktree (suite still 678 passed; demo fails with / passes without). `_1`, `_2`: first round; `_3`, `_4`: second round (other sub-agents, asked for two different parts of the code). Patches are against the tree as it was when they were confirmed; later `fix:` commits may make an older patch need `git apply -3`.
+Each directory holds `patch.diff` (apply with `git apply` in a scratch worktree of /repo - never in /repo itself), `demo.py` (exits non-zero with the change, 0 without; set `PEST_SRC=/repo/src`, `PEST_ROOT=/repo`), `meta.json` (what it breaks, what it needs to manifest, how it was confirmed) and `detect.json` (quick checks run against it with `tools/seed.py run`). All were written by independent sub-agents given only the property text and a scratch worktree, and confirmed in a scratch worktree (suite still 678 passed; demo fails with / passes without). `_1`, `_2`: first round; `_3`, `_4`: second round (other sub-agents, asked for two different parts of the code). Patches are against the tree as it was when they were confirmed; later `fix:` commits may make an older patch need `git apply -3`.
 
 | seed | property | files | what it breaks | detected by (quick tier) |
 |---|---|---|---|---|
